@@ -20,7 +20,7 @@ RULE = ("text cleaners: EXHAUSTIVE over all strings of length <= 6 over the 5-sy
 ASSUMPTIONS = ["lxml's parser defines the element tree for the html cleaner; the generator only emits validly "
                "nested markup, which lxml does not restructure"]
 FLOORS = {"quick": {"strings": 40000, "exhaustive_strings": 19530, "step_lists": 39, "composition_checks": 100000,
-                    "invalid_step_checks": 20, "trees": 3000, "trees_with_hidden": 300, "whitespace_chars_seen": 20},
+                    "invalid_step_checks": 20, "trees": 3000, "trees_with_hidden": 300, "whitespace_chars_seen": 20, "many_run_strings": 300},
           "thorough": {"strings": 2000000, "trees": 150000, "composition_checks": 5000000}}
 NRAND = {"quick": 4000, "thorough": 200000}
 NTREE = {"quick": 450, "thorough": 12000}
@@ -244,6 +244,14 @@ def run_shard(spec, rec):
         seen_ws.update(c for c in s if c in WS)
         check_string(s, rec, rng.sample(lists, 4))
     rec.count("whitespace_chars_seen", len(seen_ws) if spec["i"] == 0 else 0)
+    # long strings with MANY separate runs (a cleaner that stops after a bounded number of substitutions)
+    for _ in range(spec["nrand"] // 10):
+        parts = []
+        for _j in range(rng.randint(9, 60)):
+            parts.append(rng.choice(["ab", "X", "1 U.S. 1", "z,", "§"]))
+            parts.append(rng.choice(["__", "___", "  ", " \t ", "\n\n", "_", " ", "\t\t", " \u00a0 "]))
+        check_string("".join(parts), rec, rng.sample(lists, 3))
+        rec.count("many_run_strings")
     # invalid steps
     for bad in ("nope", "", "HTML", "html ", 5, None, ("html",)):
         rec.count("invalid_step_checks")
